@@ -85,7 +85,7 @@ pub fn check_history(h: &Hist) -> Result<(bool, Vec<&'static str>), Failure> {
         }
         let reqs = seg_requests(h, seg);
         let ucs: Vec<_> = reqs.iter().filter(|(_, v, _, _)| v.kind == ReqKind::UpdateCheck).collect();
-        if ucs.len() as u32 != e.attempts {
+        if ucs.len() as u32 != if e.construction_failure { 0 } else { e.attempts } {
             return Err(failure(
                 "attempt-count",
                 format!("{} update-check requests were sent; the outcomes {:?} (poll interval in force at start: {:?}) allow exactly {}", ucs.len(), e.attempt_success, ev.poll_at_start, e.attempts),
@@ -257,7 +257,7 @@ pub fn case(t: &mut Tape, ctx: &CaseCtx) -> CaseResult {
         }
         (s, vec![LifePlan::new(false, 1, None)])
     } else {
-        let p = Profile { outcome_w: [6, 3, 2, 1, 5, 2, 2], retry_after: (1, 5), cup: (1, 2), ..Default::default() };
+        let p = Profile { outcome_w: [6, 3, 2, 1, 5, 2, 2], retry_after: (1, 5), cup: (1, 2), junk_url: (1, 10), ..Default::default() };
         let lives = vec![LifePlan { oneshot: t.chance(1, 8), checks: 1 + t.choose(3), crash_at: None, wall_at_start: None }];
         let mut s = gen_script(t, &p);
         if t.chance(1, 3) {
